@@ -30,7 +30,9 @@ Inductive rkind :=
 | RVote (ty h r : nat) (isnil : bool)     (* own vote, ty 1 prevote / 2 precommit *)
 | RTimeout (h r st : nat)
 | RStep
-| RPeer.
+| RPeer
+| RRot.                                   (* not a record: the WAL head was rotated here (autofile.Group.RotateFile):
+                                             what precedes is in wal.NNN files, what follows in the next file *)
 
 (** * database writes *)
 Inductive wkind :=
@@ -135,12 +137,64 @@ Definition states_on_disk (im : image) : list nat :=
 Definition is_end (h : nat) (r : rkind) : bool := match r with REnd x => x =? h | _ => false end.
 Definition has_end (h : nat) (wal : list rkind) : bool := existsb (is_end h) wal.
 
-(** records after the FIRST #ENDHEIGHT h (SearchForEndHeight returns the reader there) *)
+(** records after the FIRST #ENDHEIGHT h of one file *)
 Fixpoint after_end (h : nat) (wal : list rkind) : list rkind :=
   match wal with
   | [] => []
   | r :: t => if is_end h r then t else after_end h t
   end.
+
+(** the search over a WAL that was never rotated (one file) *)
+Definition flat_search (h : nat) (wal : list rkind) : option (list rkind) :=
+  if has_end h wal then Some (after_end h wal) else None.
+
+(** ** the WAL as a group of files (lib/autofile/group.go)
+    The durable record list carries [RRot] where the head was rotated; the files of the group
+    are the pieces between the marks, oldest first, the last piece is the head (empty when the
+    process died after a rotation and before the next flush re-created the head). *)
+Fixpoint split_files (wal : list rkind) : list (list rkind) :=
+  match wal with
+  | [] => [[]]
+  | RRot :: t => [] :: split_files t
+  | r :: t => match split_files t with f :: fs => (r :: f) :: fs | [] => [[r]] end
+  end.
+
+(** BaseWAL.OnStart: an empty head gets #ENDHEIGHT 0 (fsynced) before anything is searched *)
+Fixpoint wal_onstart (files : list (list rkind)) : list (list rkind) :=
+  match files with
+  | [] => [[REnd 0]]
+  | [f] => [match f with [] => [REnd 0] | _ => f end]
+  | f :: fs => f :: wal_onstart fs
+  end.
+
+(** BaseWAL.SearchForEndHeight, one file: decode forward; [last] is lastHeightFound (None: -1),
+    which is NOT reset between files.  inl: found, the reader stands behind the marker. *)
+Fixpoint scan_file (h : nat) (last : option nat) (f : list rkind) : list rkind + option nat :=
+  match f with
+  | [] => inr last
+  | REnd x :: t => if x =? h then inl t else scan_file h (Some x) t
+  | _ :: t => scan_file h last t
+  end.
+
+(** "OPTIMISATION: no need to look for height in older files if we've seen h < height":
+    [lastHeightFound > 0 && lastHeightFound < height] at the end of a file *)
+Definition shortcut (last : option nat) (h : nat) : bool :=
+  match last with Some l => (0 <? l) && (l <? h) | None => false end.
+
+(** files newest first; [newer]: what the GroupReader goes on to read after the file in which
+    the marker is found (the younger files, in order) *)
+Fixpoint search_rev (h : nat) (last : option nat) (rfiles : list (list rkind)) (newer : list rkind) : option (list rkind) :=
+  match rfiles with
+  | [] => None
+  | f :: older =>
+    match scan_file h last f with
+    | inl rest => Some (rest ++ newer)
+    | inr last' => if shortcut last' h then None else search_rev h last' older (f ++ newer)
+    end
+  end.
+
+Definition search (h : nat) (files : list (list rkind)) : option (list rkind) :=
+  search_rev h None (rev files) [].
 
 Definition is_prop (h : nat) (r : rkind) : bool := match r with RProp x _ _ => x =? h | _ => false end.
 Definition is_part (h : nat) (tx : bool) (r : rkind) : bool :=
@@ -193,28 +247,54 @@ Definition fail_obs : robs :=
   {| r_ok := false; r_onstart_panic := false; r_hh := 0; r_hc := 0; r_start := 0; r_bo := 0; r_fellback := false;
      r_replay := RcNone; r_repaired := false; r_repl_meta := false; r_repl_canon := false; r_sigs := [] |}.
 
-Definition recover (sc : scen) (tl : tail) (im : image) : robs :=
-  if i_canon0 im && match i_head im with None => true | Some _ => false end then fail_obs
-  else
-    let hh := match i_head im with None => 0 | Some h => rewind im h end in
-    let loaded := memb hh (i_cstates im) in
-    let hc := if loaded then hh else 0 in
+(** what catchupReplay and the double-sign comparison read from the WAL of an image started at
+    height [start] on the consensus state of height [hc] *)
+Record walview := {
+  wv_fstart : bool;          (* SearchForEndHeight(start) found *)
+  wv_fhc : bool;             (* SearchForEndHeight(hc) found *)
+  wv_logged : option bool;   (* first own proposal of [start] among the records to replay (its block carries txs) *)
+  wv_lpart : bool;           (* the parts of that block are among them *)
+  wv_lv1 : bool; wv_lv2 : bool;   (* own prevote / precommit of [start] among them *)
+  wv_pubp : bool; wv_pubtx : bool; wv_pubv1 : bool; wv_pubv2 : bool  (* published before the crash (anywhere in the durable WAL) *)
+}.
+
+Definition view_of (start hc : nat) (wal : list rkind) : walview :=
+  let files := wal_onstart (split_files wal) in
+  let fstart := match search start files with Some _ => true | None => false end in
+  let shc := search hc files in
+  let fhc := match shc with Some _ => true | None => false end in
+  let recs := if fstart then [] else match shc with Some r => r | None => [] end in
+  let logged := first_prop start recs in
+  let ltx := match logged with Some t => t | None => false end in
+  {| wv_fstart := fstart; wv_fhc := fhc; wv_logged := logged;
+     wv_lpart := existsb (is_part start ltx) recs;
+     wv_lv1 := existsb (is_vote 1 start) recs; wv_lv2 := existsb (is_vote 2 start) recs;
+     wv_pubp := existsb (is_prop start) wal;
+     wv_pubtx := match last_prop start wal with Some t => t | None => false end;
+     wv_pubv1 := existsb (is_vote 1 start) wal; wv_pubv2 := existsb (is_vote 2 start) wal |}.
+
+(** NewBlockChain's repair and Store.Load: (head height, consensus-state height, record loaded) *)
+Definition heights_of (im : image) : nat * nat * bool :=
+  let hh := match i_head im with None => 0 | Some h => rewind im h end in
+  let loaded := memb hh (i_cstates im) in
+  (hh, (if loaded then hh else 0), loaded).
+
+Definition recover_view (sc : scen) (tl : tail) (im : image) (v : walview) : robs :=
+    let '(hh, hc, loaded) := heights_of im in
     let start := S hc in
-    let wal := i_wal im in
-    let cls := if has_end start wal then RcEndPresent
-               else if negb (has_end hc wal) && negb (hc =? 0) then RcNoMarker
+    let cls := if wv_fstart v then RcEndPresent
+               else if negb (wv_fhc v) && negb (hc =? 0) then RcNoMarker
                else RcReplayed in
-    let recs := match cls with RcReplayed => after_end hc wal | _ => [] end in
-    let logged := first_prop start recs in
+    let logged := wv_logged v in
     let lprop := match logged with Some _ => true | None => false end in
     let ltx := match logged with Some t => t | None => false end in
-    let lpart := existsb (is_part start ltx) recs in
-    let lv1 := existsb (is_vote 1 start) recs in
-    let lv2 := existsb (is_vote 2 start) recs in
-    let pubp := existsb (is_prop start) wal in
-    let pubtx := match last_prop start wal with Some t => t | None => false end in
-    let pubv1 := existsb (is_vote 1 start) wal in
-    let pubv2 := existsb (is_vote 2 start) wal in
+    let lpart := wv_lpart v in
+    let lv1 := wv_lv1 v in
+    let lv2 := wv_lv2 v in
+    let pubp := wv_pubp v in
+    let pubtx := wv_pubtx v in
+    let pubv1 := wv_pubv1 v in
+    let pubv2 := wv_pubv2 v in
     (* the state the node starts from is the freshly built genesis state *)
     let fresh_state := negb loaded in
     let app_ok := sc_appfixed sc || negb (start =? 1) || fresh_state in
@@ -249,12 +329,21 @@ Definition recover (sc : scen) (tl : tail) (im : image) : robs :=
         else (scratch, false)
       | _ => (scratch, false)
       end in
-    let replaced := match cls with RcReplayed => false | _ => memb start (i_blocks im) && negb same_stored end in
+    (* the block stored at the start height is saved again unless the replay re-commits the logged one *)
+    let replaced := match cls with
+                    | RcReplayed => if lprop then false else memb start (i_blocks im) && negb same_stored
+                    | _ => memb start (i_blocks im) && negb same_stored end in
     {| r_ok := true; r_onstart_panic := panic; r_hh := hh; r_hc := hc; r_start := start; r_bo := hh;
        r_fellback := negb loaded && negb (hh =? 0);
        r_replay := shown; r_repaired := repaired;
        r_repl_meta := replaced && (hh <? start); r_repl_canon := replaced;
        r_sigs := sigs |}.
+
+Definition recover (sc : scen) (tl : tail) (im : image) : robs :=
+  if i_canon0 im && match i_head im with None => true | Some _ => false end then fail_obs
+  else
+    let hc := snd (fst (heights_of im)) in
+    recover_view sc tl im (view_of (S hc) hc (i_wal im)).
 
 (** * property predicates on a recovery (used by the theorems and printed by the driver) *)
 Definition stores_agree (o : robs) : bool := r_ok o && (r_hh o =? r_hc o).
